@@ -152,7 +152,8 @@ def run(ctx, with_contradiction=True):
             rep.check('from_fixed_bytes' in calls, 'R-C15-1', 'R-C15-1/decoder/%s' % f, 'point field %s is read with from_fixed_bytes' % f,
                       'point field %s is not read with from_fixed_bytes (%s)' % (f, sorted(calls)[:6]), ctx.where(dec, abb))
         else:
-            good = any(x.tag == 'call' and x[1].endswith('TryFrom<u8>>::try_from') for x in walk(t)) and any(x.tag == 'elemat' and x[2].tag == 'const' and x[2][1] in ('first', 0) for x in walk(t))
+            # (the usize conversion is the u8 one after a checked narrowing: R-C17-1)
+            good = any(x.tag == 'call' and 'ExtensionDegree as std::convert::TryFrom<u' in x[1] and x[1].endswith('>::try_from') for x in walk(t)) and any(x.tag == 'elemat' and x[2].tag == 'const' and x[2][1] in ('first', 0) for x in walk(t))
             rep.check(good, 'R-C15-3', 'R-C15-3/decoder/degree-byte', 'the degree tag is ExtensionDegree::try_from(first byte)',
                       'the degree tag is %s' % short(t, 120), ctx.where(dec, abb))
         # all parsed elements come from the same chunk iterator over the bytes after the tag
